@@ -2,20 +2,37 @@ import DiscretModel.Model.DataModel
 /-
 Lemmas about `Model/DataModel.lean` (core Lean only).
 -/
+set_option linter.unusedSimpArgs false
 namespace Discret.DM
 
 /-! ### the visit helpers -/
 
 theorem mem_prio {α : Type} (pri : List Key) (key : α → Key) (l : List α) (x : α) :
     x ∈ prio pri key l ↔ x ∈ l := by
-  unfold prio
-  simp only [List.mem_append, List.mem_flatMap, List.mem_filter, List.mem_eraseDups]
-  constructor
-  · rintro (⟨k, _, hx, _⟩ | ⟨hx, _⟩) <;> exact hx
-  · intro hx
-    by_cases h : key x ∈ pri
-    · exact Or.inl ⟨key x, h, hx, by simp⟩
-    · exact Or.inr ⟨hx, by simpa using h⟩
+  induction pri generalizing l with
+  | nil => simp [prio]
+  | cons k ks ih =>
+    simp only [prio, List.mem_append, List.mem_filter, ih]
+    constructor
+    · rintro (⟨hx, _⟩ | ⟨hx, _⟩) <;> exact hx
+    · intro hx
+      by_cases h : key x = k
+      · exact Or.inl ⟨hx, by simp [h]⟩
+      · exact Or.inr ⟨hx, by simp [h]⟩
+
+/-- with at most one item there is only one visit order -/
+theorem prio_short {α : Type} (pri : List Key) (key : α → Key) (l : List α) (h : l.length ≤ 1) :
+    prio pri key l = l := by
+  induction pri generalizing l with
+  | nil => rfl
+  | cons k ks ih =>
+    match l, h with
+    | [], _ => simp [prio, ih]
+    | [x], _ =>
+      simp only [prio, List.filter_cons, List.filter_nil]
+      by_cases hk : key x = k
+      · simp [hk, ih]
+      · simp [hk, ih]
 
 theorem firstErr_none {α : Type} (chk : α → Option Err) (l : List α) :
     firstErr chk l = none ↔ ∀ x ∈ l, chk x = none := by
@@ -367,7 +384,7 @@ theorem find?_name_none {α : Type} (name : α → String) (l : List α) (a : St
   simp only [List.mem_map, not_exists, not_and]
   exact h
 
-theorem eq_of_name_eq {α : Type} (name : α → String) (l : List α) (hnd : (l.map name).Nodup)
+theorem eq_of_name_eq {α κ : Type} (name : α → κ) (l : List α) (hnd : (l.map name).Nodup)
     (x y : α) (hx : x ∈ l) (hy : y ∈ l) (h : name x = name y) : x = y := by
   induction l with
   | nil => simp at hx
@@ -562,10 +579,6 @@ theorem map_done_all {α : Type} (chk : α → Option Err) (pri : List Key) (key
     simp only [List.any_eq_true, beq_iff_eq]
     exact ⟨x, (mem_prio pri key l x).mpr hx, rfl⟩
   simp only [this, if_true]
-
-/-- the fields of `new` that `old` does not have -/
-def Entity.fresh (old new : Entity) : List Field :=
-  new.fields.filter fun nf => !old.fields.any (·.name == nf.name)
 
 /-- what a successful `Entity::update` produces -/
 def Entity.merged (d : Defects) (pri : List Key) (nsn : String) (old new : Entity) : Entity :=
@@ -1033,5 +1046,877 @@ theorem merged_model_wf (pri : List Key) (d : Defects) (hd : d.hashOrderIds = fa
         exact nsMerged_wf pri d hd y nn (hm.2.2.2 y hy) (hnv.2.2 nn (List.mem_of_find?_eq_some hsome)) hents
     · exact hnv.2.2 n (hfresh_mem n hn).1
 
+
+/-! ### an accepted update gives the ids of the accepted text -/
+
+/-- both absent, or both present and related -/
+def OptRel {α β : Type} (r : α → β → Prop) : Option α → Option β → Prop
+  | some a, some b => r a b
+  | none, none => True
+  | _, _ => False
+
+theorem OptRel.refl {α : Type} (r : α → α → Prop) (hr : ∀ a, r a a) (o : Option α) : OptRel r o o := by
+  cases o <;> simp [OptRel, hr]
+
+theorem OptRel.symm {α β : Type} (r : α → β → Prop) (r' : β → α → Prop) (h : ∀ a b, r a b → r' b a)
+    (o : Option α) (o' : Option β) (ho : OptRel r o o') : OptRel r' o' o := by
+  cases o <;> cases o' <;> simp_all [OptRel]
+
+theorem OptRel.trans {α β γ : Type} (r : α → β → Prop) (r' : β → γ → Prop) (r'' : α → γ → Prop)
+    (h : ∀ a b c, r a b → r' b c → r'' a c)
+    (o : Option α) (o' : Option β) (o'' : Option γ) (h1 : OptRel r o o') (h2 : OptRel r' o' o'') : OptRel r'' o o'' := by
+  cases o <;> cases o' <;> cases o'' <;> simp_all [OptRel]
+  exact h _ _ _ h1 h2
+
+/-- same storage ids: the entity id and, field by field, the same short id -/
+def Entity.SameIds (a b : Entity) : Prop :=
+  a.k = b.k ∧ ∀ f, (a.findField f).map (·.short) = (b.findField f).map (·.short)
+
+def Ns.SameIds (a b : Ns) : Prop :=
+  a.id = b.id ∧ ∀ e, OptRel Entity.SameIds (a.findEnt e) (b.findEnt e)
+
+/-- the user part (everything but the `sys` namespace) of two models carries the same ids -/
+def Model.SameUserIds (a b : Model) : Prop :=
+  ∀ n, n ≠ sysNs → OptRel Ns.SameIds (a.findNs n) (b.findNs n)
+
+theorem Entity.SameIds.refl (a : Entity) : a.SameIds a := ⟨rfl, fun _ => rfl⟩
+theorem Entity.SameIds.symm {a b : Entity} (h : a.SameIds b) : b.SameIds a := ⟨h.1.symm, fun f => (h.2 f).symm⟩
+theorem Entity.SameIds.trans {a b c : Entity} (h1 : a.SameIds b) (h2 : b.SameIds c) : a.SameIds c :=
+  ⟨h1.1.trans h2.1, fun f => (h1.2 f).trans (h2.2 f)⟩
+
+theorem Ns.SameIds.refl (a : Ns) : a.SameIds a := ⟨rfl, fun _ => OptRel.refl _ Entity.SameIds.refl _⟩
+theorem Ns.SameIds.symm {a b : Ns} (h : a.SameIds b) : b.SameIds a :=
+  ⟨h.1.symm, fun e => OptRel.symm Entity.SameIds Entity.SameIds (fun _ _ => Entity.SameIds.symm) _ _ (h.2 e)⟩
+theorem Ns.SameIds.trans {a b c : Ns} (h1 : a.SameIds b) (h2 : b.SameIds c) : a.SameIds c :=
+  ⟨h1.1.trans h2.1, fun e => OptRel.trans Entity.SameIds Entity.SameIds Entity.SameIds (fun _ _ _ => Entity.SameIds.trans) _ _ _ (h1.2 e) (h2.2 e)⟩
+
+theorem Model.SameUserIds.symm {a b : Model} (h : a.SameUserIds b) : b.SameUserIds a :=
+  fun n hn => OptRel.symm Ns.SameIds Ns.SameIds (fun _ _ => Ns.SameIds.symm) _ _ (h n hn)
+theorem Model.SameUserIds.trans {a b c : Model} (h1 : a.SameUserIds b) (h2 : b.SameUserIds c) : a.SameUserIds c :=
+  fun n hn => OptRel.trans Ns.SameIds Ns.SameIds Ns.SameIds (fun _ _ _ => Ns.SameIds.trans) _ _ _ (h1 n hn) (h2 n hn)
+
+/-- lookups by name in two lists with the same names are related as soon as equally named members are -/
+theorem zipFind {α β : Type} (nameA : α → String) (nameB : β → String) (R : α → β → Prop) (x : String)
+    (A : List α) (C : List β) (hn : A.map nameA = C.map nameB)
+    (hR : ∀ a ∈ A, ∀ c ∈ C, nameA a = nameB c → R a c) :
+    OptRel R (A.find? (fun a => nameA a == x)) (C.find? (fun c => nameB c == x)) := by
+  induction A generalizing C with
+  | nil => cases C with
+    | nil => simp [OptRel]
+    | cons c cs => simp at hn
+  | cons a as ih =>
+    cases C with
+    | nil => simp at hn
+    | cons c cs =>
+      simp only [List.map_cons, List.cons.injEq] at hn
+      simp only [List.find?_cons, hn.1]
+      cases hc : nameB c == x with
+      | true => simp only [OptRel]; exact hR a (by simp) c (by simp) hn.1
+      | false =>
+        exact ih cs hn.2 (fun a' ha' c' hc' => hR a' (List.mem_cons_of_mem _ ha') c' (List.mem_cons_of_mem _ hc'))
+
+theorem merged_sameIds (pri : List Key) (nsn : String) (d : Defects) (hd : d.hashOrderIds = false) (e ne : Entity)
+    (he : e.WF) (hne : ne.WF) (ha : e.accepts ne) (hk : ne.k = e.k) : (e.merged d pri nsn ne).SameIds ne := by
+  obtain ⟨_, h2, h3, _⟩ := merged_fields pri nsn d hd e ne he hne ha
+  refine ⟨by simp [Entity.merged, hk], fun f => ?_⟩
+  exact find_pos_eq (fun (x : Field) => x.name) (fun x => x.short) (fun (x : Field) => x.name) (fun x => x.short)
+    reservedShort _ _ h2 h3 hne.2 f
+
+theorem nsMerged_sameIds (pri : List Key) (d : Defects) (hd : d.hashOrderIds = false) (old nn : Ns)
+    (ho : old.WF) (hn : nn.WF) (hid : nn.id = old.id) (ha : ∀ e ∈ old.ents, entAccepted nn e) :
+    (Ns.merged d pri old nn).SameIds nn := by
+  obtain ⟨h1, h2, _, _, _⟩ := nsMerged_ents pri d hd old nn ho hn ha
+  refine ⟨by simp [Ns.merged, hid], fun e => ?_⟩
+  unfold Ns.findEnt
+  apply zipFind (fun (x : Entity) => x.name) (fun (x : Entity) => x.name) Entity.SameIds e _ _ h2
+  intro a ha' c hc hac
+  rw [h1] at ha'
+  rcases List.mem_append.mp ha' with ha' | ha'
+  · simp only [List.mem_map] at ha'
+    obtain ⟨x, hx, rfl⟩ := ha'
+    obtain ⟨ne, hf, hk, hacc⟩ := ha x hx
+    rw [entStep_ok d pri nn x ne hf hk hacc] at hac ⊢
+    have hnename : ne.name = x.name := by simpa using List.find?_some hf
+    have hce : c = ne := eq_of_name_eq (fun (y : Entity) => y.name) nn.ents hn.1 c ne hc (List.mem_of_find?_eq_some hf)
+      (by rw [← hac, hnename]; simp [Entity.merged])
+    subst hce
+    exact merged_sameIds pri nn.name d hd x c (ho.2.2 x hx) (hn.2.2 c hc) hacc hk
+  · have : a = c := eq_of_name_eq (fun (y : Entity) => y.name) nn.ents hn.1 a c (List.mem_of_mem_drop ha') hc hac
+    subst this
+    exact Entity.SameIds.refl a
+
+theorem find?_filter_name {α : Type} (name : α → String) (p : α → Bool) (l : List α) (a : String)
+    (hp : ∀ x ∈ l, name x = a → p x = true) :
+    (l.filter p).find? (fun x => name x == a) = l.find? (fun x => name x == a) := by
+  induction l with
+  | nil => rfl
+  | cons y ys ih =>
+    have ih' := ih (fun x hx => hp x (List.mem_cons_of_mem _ hx))
+    rw [List.filter_cons]
+    by_cases hy : name y = a
+    · have := hp y (by simp) hy
+      simp [this, List.find?_cons, hy]
+    · split
+      · simp only [List.find?_cons]
+        have : (name y == a) = false := by simpa using hy
+        simp only [this]; exact ih'
+      · simp only [List.find?_cons]
+        have : (name y == a) = false := by simpa using hy
+        simp only [this]; exact ih'
+
+theorem find?_map_append_of_none {α : Type} (p : α → Bool) (g : α → α) (hg : ∀ x, p (g x) = p x)
+    (l ex : List α) (h : l.find? p = none) : (l.map g ++ ex).find? p = ex.find? p := by
+  induction l with
+  | nil => rfl
+  | cons y ys ih =>
+    simp only [List.find?_cons] at h
+    simp only [List.map_cons, List.cons_append, List.find?_cons, hg]
+    cases hy : p y with
+    | true => simp [hy] at h
+    | false => simp only [hy] at h; exact ih h
+
+/-- **ids are the positions in the accepted text**: after an accepted user update the user part of the
+    model carries exactly the ids the parser gave to the new version -/
+theorem merged_sameUserIds (pri : List Key) (d : Defects) (hd : d.hashOrderIds = false) (m nv : Model)
+    (hm : m.WF) (hnv : NssWFp 1 nv.nss) (ha : updAccepted false m nv) :
+    (Model.merged d pri false m nv).SameUserIds nv := by
+  intro n hn
+  have hname : ∀ x, ((fun (y : Ns) => y.name == n) ((nsStep d pri false nv x).1)) = ((fun (y : Ns) => y.name == n) x) := by
+    intro x; simp [(nsStep_ext d pri false nv x).1]
+  unfold Model.findNs
+  simp only [Model.merged]
+  cases hf : m.nss.find? (fun y => y.name == n) with
+  | some y =>
+    rw [find?_map_append_of_some (fun (y : Ns) => y.name == n) _ hname _ _ y hf]
+    have hy := List.mem_of_find?_eq_some hf
+    have hyn : y.name = n := by simpa using List.find?_some hf
+    rcases nsStep_fst_of_accepted pri d false nv y (ha.2 y hy) with ⟨hnone, _⟩ | ⟨nn, hsome, hnid, hents, heq⟩
+    · have hacc := ha.2 y hy
+      unfold nsAccepted at hacc
+      rw [hnone] at hacc
+      rcases hacc with h | h
+      · cases h
+      · exact absurd (hyn ▸ h) hn
+    · rw [heq]
+      rw [hyn] at hsome
+      rw [hsome]
+      simp only [OptRel]
+      exact nsMerged_sameIds pri d hd y nn (hm.2.2.2 y hy) (hnv.2.2 nn (List.mem_of_find?_eq_some hsome)) hnid hents
+  | none =>
+    rw [find?_map_append_of_none (fun (y : Ns) => y.name == n) _ hname _ _ hf]
+    rw [find?_filter_name (fun (y : Ns) => y.name)]
+    · exact OptRel.refl _ Ns.SameIds.refl _
+    · intro x _ hx
+      simp only [Bool.not_eq_true', List.any_eq_false, beq_iff_eq]
+      intro z hz hzx
+      have := List.find?_eq_none.mp hf z hz
+      simp only [beq_iff_eq] at this
+      exact this (hzx.trans hx)
+
+
+/-! ### re-applying an accepted version changes nothing -/
+
+theorem find?_self_of_nodup {α : Type} (name : α → String) (l : List α) (hnd : (l.map name).Nodup) (x : α) (hx : x ∈ l) :
+    l.find? (fun y => name y == name x) = some x := by
+  cases h : l.find? (fun y => name y == name x) with
+  | none =>
+    have := List.find?_eq_none.mp h x hx
+    simp at this
+  | some y =>
+    have hy := List.mem_of_find?_eq_some h
+    have hn : name y = name x := by simpa using List.find?_some h
+    rw [eq_of_name_eq name l hnd y x hy hx hn]
+
+/-- field `f'` of the model already is what the new version says -/
+def Field.Settled (f' : Field) (nfs : List Field) : Prop :=
+  ∃ nf, nfs.find? (·.name == f'.name) = some nf ∧ nf.short = f'.short ∧ nf.ty = f'.ty ∧
+    nf.nullable = f'.nullable ∧ nf.dflt = f'.dflt ∧ nf.deprecated = f'.deprecated
+
+theorem Field.Settled.check {f' : Field} {nfs : List Field} (h : f'.Settled nfs) : checkField f' nfs = none := by
+  obtain ⟨nf, hf, hs, ht, hn, _, _⟩ := h
+  unfold checkField
+  simp only [hf, hs, ht, hn, bne_self_eq_false, Bool.false_eq_true, if_false]
+  cases f'.nullable <;> simp
+
+theorem Field.Settled.merge {f' : Field} {nfs : List Field} (h : f'.Settled nfs) : mergeField f' nfs = f' := by
+  obtain ⟨nf, hf, _, _, hn, hd, hp⟩ := h
+  unfold mergeField
+  simp only [hf, hn, hd, hp]
+
+theorem settled_of_merge {f : Field} {nfs : List Field} (h : checkField f nfs = none) :
+    (mergeField f nfs).Settled nfs := by
+  obtain ⟨nf, hf, hs, ht, _⟩ := checkField_none h
+  refine ⟨nf, by rw [mergeField_name]; exact hf, by rw [mergeField_short]; exact hs, by rw [mergeField_ty]; exact ht, ?_, ?_, ?_⟩
+  all_goals (unfold mergeField; simp only [hf])
+
+theorem settled_self (nfs : List Field) (hnd : (nfs.map (·.name)).Nodup) (f : Field) (hf : f ∈ nfs) : f.Settled nfs :=
+  ⟨f, find?_self_of_nodup (fun (x : Field) => x.name) nfs hnd f hf, rfl, rfl, rfl, rfl, rfl⟩
+
+/-- entity `e'` of the model already is what entity `ne` of the new version says -/
+def Entity.Settled (e' ne : Entity) : Prop :=
+  e'.name = ne.name ∧ e'.k = ne.k ∧ e'.deprecated = ne.deprecated ∧ e'.indexes = ne.indexes ∧
+    e'.fields.map (·.name) = ne.fields.map (·.name) ∧ ∀ f' ∈ e'.fields, f'.Settled ne.fields
+
+theorem fresh_nil_of_names {e' ne : Entity} (h : e'.fields.map (·.name) = ne.fields.map (·.name)) : e'.fresh ne = [] := by
+  unfold Entity.fresh
+  rw [List.filter_eq_nil_iff]
+  intro nf hnf
+  simp only [Bool.not_eq_true, Bool.not_eq_false', List.any_eq_true, beq_iff_eq, Bool.not_eq_eq_eq_not, Bool.not_true]
+  have : nf.name ∈ ne.fields.map (·.name) := List.mem_map.mpr ⟨nf, hnf, rfl⟩
+  rw [← h] at this
+  obtain ⟨x, hx, hxn⟩ := List.mem_map.mp this
+  simpa using ⟨x, hx, hxn⟩
+
+theorem Entity.Settled.accepts {e' ne : Entity} (h : e'.Settled ne) : e'.accepts ne := by
+  refine ⟨fun f hf => (h.2.2.2.2.2 f hf).check, ?_⟩
+  rw [fresh_nil_of_names h.2.2.2.2.1]
+  simp
+
+theorem prio_nil {α : Type} (pri : List Key) (key : α → Key) : prio pri key ([] : List α) = [] :=
+  prio_short pri key [] (by simp)
+
+theorem Entity.Settled.merged_eq (d : Defects) (pri : List Key) (nsn : String) {e' ne : Entity} (h : e'.Settled ne) :
+    e'.merged d pri nsn ne = e' := by
+  have hfresh := fresh_nil_of_names h.2.2.2.2.1
+  have hmap : e'.fields.map (fun f => mergeField f ne.fields) = e'.fields := by
+    conv => rhs; rw [← List.map_id e'.fields]
+    apply List.map_congr_left
+    intro f hf
+    simpa using (h.2.2.2.2.2 f hf).merge
+  unfold Entity.merged
+  rw [hfresh, hmap, prio_nil]
+  simp only [ite_self, renumber, List.append_nil, ← h.2.2.1, ← h.2.2.2.1]
+  have : (e'.indexes.filter fun ix => !e'.indexes.contains ix) = [] := by
+    rw [List.filter_eq_nil_iff]; intro ix hix; simp [hix]
+  rw [this]
+  simp [addRemoved]
+
+theorem settled_of_merged (pri : List Key) (nsn : String) (d : Defects) (hd : d.hashOrderIds = false) (e ne : Entity)
+    (he : e.WF) (hne : ne.WF) (ha : e.accepts ne) (hk : ne.k = e.k) (hname : ne.name = e.name) :
+    (e.merged d pri nsn ne).Settled ne := by
+  obtain ⟨h1, h2, _, _, _⟩ := merged_fields pri nsn d hd e ne he hne ha
+  refine ⟨by simp [Entity.merged, hname], by simp [Entity.merged, hk], by simp [Entity.merged], by simp [Entity.merged], h2, ?_⟩
+  intro f' hf'
+  rw [h1] at hf'
+  rcases List.mem_append.mp hf' with hf' | hf'
+  · simp only [List.mem_map] at hf'
+    obtain ⟨f, hf, rfl⟩ := hf'
+    exact settled_of_merge (ha.1 f hf)
+  · exact settled_self ne.fields hne.1 f' (List.mem_of_mem_drop hf')
+
+theorem settled_refl (ne : Entity) (hne : ne.WF) : ne.Settled ne :=
+  ⟨rfl, rfl, rfl, rfl, rfl, fun f hf => settled_self ne.fields hne.1 f hf⟩
+
+/-- namespace `x'` of the model already is what namespace `nn` of the new version says -/
+def Ns.Settled (x' nn : Ns) : Prop :=
+  x'.name = nn.name ∧ x'.id = nn.id ∧ x'.ents.map (·.name) = nn.ents.map (·.name) ∧
+    ∀ e' ∈ x'.ents, ∃ ne, nn.ents.find? (·.name == e'.name) = some ne ∧ e'.Settled ne
+
+theorem Ns.Settled.accepted {x' nn : Ns} (h : x'.Settled nn) : ∀ e ∈ x'.ents, entAccepted nn e := by
+  intro e he
+  obtain ⟨ne, hf, hs⟩ := h.2.2.2 e he
+  exact ⟨ne, hf, hs.2.1.symm, hs.accepts⟩
+
+theorem Ns.Settled.merged_eq (d : Defects) (pri : List Key) {x' nn : Ns} (h : x'.Settled nn) :
+    Ns.merged d pri x' nn = x' := by
+  have hmap : x'.ents.map (fun e => (entStep d pri nn e).1) = x'.ents := by
+    conv => rhs; rw [← List.map_id x'.ents]
+    apply List.map_congr_left
+    intro e he
+    obtain ⟨ne, hf, hs⟩ := h.2.2.2 e he
+    rw [entStep_ok d pri nn e ne hf hs.2.1.symm hs.accepts]
+    simpa using hs.merged_eq d pri nn.name
+  have hfil : (nn.ents.filter fun ne => !x'.ents.any (·.name == ne.name)) = [] := by
+    rw [List.filter_eq_nil_iff]
+    intro ne hne
+    have : ne.name ∈ nn.ents.map (·.name) := List.mem_map.mpr ⟨ne, hne, rfl⟩
+    rw [← h.2.2.1] at this
+    obtain ⟨x, hx, hxn⟩ := List.mem_map.mp this
+    simpa using ⟨x, hx, hxn⟩
+  unfold Ns.merged
+  rw [hmap, hfil]
+  simp
+
+theorem nsSettled_of_merged (pri : List Key) (d : Defects) (hd : d.hashOrderIds = false) (old nn : Ns)
+    (ho : old.WF) (hn : nn.WF) (hname : nn.name = old.name) (hid : nn.id = old.id)
+    (ha : ∀ e ∈ old.ents, entAccepted nn e) : (Ns.merged d pri old nn).Settled nn := by
+  obtain ⟨h1, h2, _, _, _⟩ := nsMerged_ents pri d hd old nn ho hn ha
+  refine ⟨by simp [Ns.merged, hname], by simp [Ns.merged, hid], h2, ?_⟩
+  intro e' he'
+  rw [h1] at he'
+  rcases List.mem_append.mp he' with he' | he'
+  · simp only [List.mem_map] at he'
+    obtain ⟨x, hx, rfl⟩ := he'
+    obtain ⟨ne, hf, hk, hacc⟩ := ha x hx
+    have hnename : ne.name = x.name := by simpa using List.find?_some hf
+    rw [entStep_ok d pri nn x ne hf hk hacc]
+    refine ⟨ne, by simpa [Entity.merged] using hf, ?_⟩
+    exact settled_of_merged pri nn.name d hd x ne (ho.2.2 x hx) (hn.2.2 ne (List.mem_of_find?_eq_some hf)) hacc hk hnename
+  · have hmem := List.mem_of_mem_drop he'
+    exact ⟨e', find?_self_of_nodup (fun (y : Entity) => y.name) nn.ents hn.1 e' hmem, settled_refl e' (hn.2.2 e' hmem)⟩
+
+theorem nsSettled_refl (nn : Ns) (hn : nn.WF) : nn.Settled nn :=
+  ⟨rfl, rfl, rfl, fun e he => ⟨e, find?_self_of_nodup (fun (y : Entity) => y.name) nn.ents hn.1 e he, settled_refl e (hn.2.2 e he)⟩⟩
+
+/-- every namespace of `m'` is either absent from the new version (allowed) or settled w.r.t. it, and
+    the new version brings no namespace `m'` does not have: applying it changes nothing -/
+theorem updateWith_settled (d : Defects) (pri : List Key) (system : Bool) (m' nv : Model)
+    (hg : nsGuard system nv = false)
+    (hs : ∀ x ∈ m'.nss, (nv.nss.find? (·.name == x.name) = none ∧ (system = true ∨ x.name = sysNs)) ∨
+      ∃ nn, nv.nss.find? (·.name == x.name) = some nn ∧ x.Settled nn)
+    (hall : ∀ nn ∈ nv.nss, nn.name ∈ m'.nss.map (·.name)) :
+    updateWith d pri system m' nv = (m', none) := by
+  have hacc : updAccepted system m' nv := by
+    refine ⟨hg, fun x hx => ?_⟩
+    unfold nsAccepted
+    rcases hs x hx with ⟨hnone, h⟩ | ⟨nn, hsome, hset⟩
+    · rw [hnone]; exact h
+    · rw [hsome]; exact ⟨hset.2.1.symm, hset.accepted⟩
+  rw [updateWith_ok d pri system m' nv hacc]
+  have hmap : m'.nss.map (fun n => (nsStep d pri system nv n).1) = m'.nss := by
+    conv => rhs; rw [← List.map_id m'.nss]
+    apply List.map_congr_left
+    intro x hx
+    rcases hs x hx with ⟨hnone, h⟩ | ⟨nn, hsome, hset⟩
+    · rw [nsStep_ok_none d pri system nv x hnone h]; rfl
+    · rw [nsStep_ok_some d pri system nv x nn hsome hset.2.1.symm hset.accepted]
+      simpa using hset.merged_eq d pri
+  have hfil : (nv.nss.filter fun nn => !m'.nss.any (·.name == nn.name)) = [] := by
+    rw [List.filter_eq_nil_iff]
+    intro nn hnn
+    obtain ⟨x, hx, hxn⟩ := List.mem_map.mp (hall nn hnn)
+    simpa using ⟨x, hx, hxn⟩
+  unfold Model.merged
+  rw [hmap, hfil]
+  simp
+
+theorem merged_settled (pri : List Key) (d : Defects) (hd : d.hashOrderIds = false) (system : Bool) (decal : Nat)
+    (m nv : Model) (hm : m.WF) (hnv : NssWFp decal nv.nss) (ha : updAccepted system m nv) :
+    (∀ x ∈ (Model.merged d pri system m nv).nss,
+      (nv.nss.find? (·.name == x.name) = none ∧ (system = true ∨ x.name = sysNs)) ∨
+      ∃ nn, nv.nss.find? (·.name == x.name) = some nn ∧ x.Settled nn) ∧
+    (∀ nn ∈ nv.nss, nn.name ∈ (Model.merged d pri system m nv).nss.map (·.name)) := by
+  constructor
+  · intro x hx
+    simp only [Model.merged] at hx
+    rcases List.mem_append.mp hx with hx | hx
+    · simp only [List.mem_map] at hx
+      obtain ⟨y, hy, rfl⟩ := hx
+      have hacc := ha.2 y hy
+      rcases nsStep_fst_of_accepted pri d system nv y hacc with ⟨hnone, heq⟩ | ⟨nn, hsome, hnid, hents, heq⟩
+      · rw [heq]
+        unfold nsAccepted at hacc
+        rw [hnone] at hacc
+        exact Or.inl ⟨hnone, hacc⟩
+      · rw [heq]
+        have hnname : nn.name = y.name := by simpa using List.find?_some hsome
+        refine Or.inr ⟨nn, by simpa [Ns.merged] using hsome, ?_⟩
+        exact nsSettled_of_merged pri d hd y nn (hm.2.2.2 y hy) (hnv.2.2 nn (List.mem_of_find?_eq_some hsome)) hnname hnid hents
+    · have hmem : x ∈ nv.nss := (List.mem_filter.mp hx).1
+      exact Or.inr ⟨x, find?_self_of_nodup (fun (y : Ns) => y.name) nv.nss hnv.1 x hmem, nsSettled_refl x (hnv.2.2 x hmem)⟩
+  · intro nn hnn
+    simp only [Model.merged, List.map_append, List.mem_append, List.mem_map]
+    by_cases h : ∃ y ∈ m.nss, y.name = nn.name
+    · obtain ⟨y, hy, hyn⟩ := h
+      exact Or.inl ⟨(nsStep d pri system nv y).1, ⟨y, hy, rfl⟩, by rw [(nsStep_ext d pri system nv y).1]; exact hyn⟩
+    · refine Or.inr ⟨nn, ?_, rfl⟩
+      simp only [List.mem_filter, Bool.not_eq_true', List.any_eq_false, beq_iff_eq]
+      exact ⟨hnn, fun y hy hyn => h ⟨y, hy, hyn⟩⟩
+
+/-- **re-applying an accepted version changes nothing** (`update_with` level) -/
+theorem updateWith_idem (pri pri' : List Key) (d : Defects) (hd : d.hashOrderIds = false) (system : Bool) (decal : Nat)
+    (m nv : Model) (hm : m.WF) (hnv : NssWFp decal nv.nss) (ha : updAccepted system m nv) :
+    updateWith d pri' system (Model.merged d pri system m nv) nv = (Model.merged d pri system m nv, none) := by
+  obtain ⟨h1, h2⟩ := merged_settled pri d hd system decal m nv hm hnv ha
+  exact updateWith_settled d pri' system _ nv ha.1 h1 h2
+
+
+
+/-! ### with text-order numbering nothing depends on the visit order -/
+
+theorem Entity.merged_pri (d : Defects) (hd : d.hashOrderIds = false) (pri pri' : List Key) (nsn : String) (e ne : Entity) :
+    e.merged d pri nsn ne = e.merged d pri' nsn ne := by
+  unfold Entity.merged; simp [hd]
+
+theorem Ns.merged_pri (d : Defects) (hd : d.hashOrderIds = false) (pri pri' : List Key) (old nn : Ns)
+    (ha : ∀ e ∈ old.ents, entAccepted nn e) : Ns.merged d pri old nn = Ns.merged d pri' old nn := by
+  unfold Ns.merged
+  congr 2
+  apply List.map_congr_left
+  intro e he
+  obtain ⟨ne, hf, hk, hacc⟩ := ha e he
+  rw [entStep_ok d pri nn e ne hf hk hacc, entStep_ok d pri' nn e ne hf hk hacc]
+  exact Entity.merged_pri d hd pri pri' nn.name e ne
+
+theorem Model.merged_pri (d : Defects) (hd : d.hashOrderIds = false) (pri pri' : List Key) (system : Bool) (m nv : Model)
+    (ha : updAccepted system m nv) : Model.merged d pri system m nv = Model.merged d pri' system m nv := by
+  unfold Model.merged
+  congr 2
+  apply List.map_congr_left
+  intro n hn
+  rcases nsStep_fst_of_accepted pri d system nv n (ha.2 n hn) with ⟨hnone, heq⟩ | ⟨nn, hsome, hnid, hents, heq⟩
+  · rcases nsStep_fst_of_accepted pri' d system nv n (ha.2 n hn) with ⟨_, heq'⟩ | ⟨nn', hsome', _, _, _⟩
+    · rw [heq, heq']
+    · rw [hnone] at hsome'; cases hsome'
+  · rcases nsStep_fst_of_accepted pri' d system nv n (ha.2 n hn) with ⟨hnone', _⟩ | ⟨nn', hsome', _, _, heq'⟩
+    · rw [hnone'] at hsome; cases hsome
+    · rw [hsome] at hsome'; cases hsome'
+      rw [heq, heq']
+      exact Ns.merged_pri d hd pri pri' n nn hents
+
+/-! ### the two entry points -/
+
+theorem update_eq_applyV (d : Defects) (pri : List Key) (m : Model) (v : Version) :
+    update d pri m v = applyV d pri false m v := by
+  unfold update applyV; rfl
+
+theorem updateSystem_eq_applyV (d : Defects) (pri : List Key) (m : Model) (v : Version) :
+    updateSystem d pri m v = applyV d pri true m v := by
+  unfold updateSystem applyV; rfl
+
+theorem mode_of (system : Bool) : Mode system (if system then 0 else 1) := by
+  cases system <;> simp [Mode]
+
+/-- an accepted version: the parsed model, the acceptance facts and the result -/
+theorem applyV_ok {d : Defects} {pri : List Key} {system : Bool} {m m' : Model} {v : Version}
+    (h : applyV d pri system m v = (m', none)) :
+    ∃ nv, parse (if system then 0 else 1) v = .ok nv ∧ NssWFp (if system then 0 else 1) nv.nss ∧
+      updAccepted system m nv ∧ m' = Model.merged d pri system m nv := by
+  unfold applyV at h
+  split at h
+  · cases h
+  · rename_i nv hp
+    have hacc := (updateWith_none_iff d pri system m nv).mp (by rw [h])
+    rw [updateWith_ok d pri system m nv hacc] at h
+    exact ⟨nv, hp, parse_wf _ v nv hp, hacc, by cases h; rfl⟩
+
+theorem applyV_of_accepted {d : Defects} {pri : List Key} {system : Bool} {m nv : Model} {v : Version}
+    (hp : parse (if system then 0 else 1) v = .ok nv) (hacc : updAccepted system m nv) :
+    applyV d pri system m v = (Model.merged d pri system m nv, none) := by
+  unfold applyV; rw [hp]; exact updateWith_ok d pri system m nv hacc
+
+/-- a refused version returns the model unchanged when refusals are atomic -/
+theorem applyV_refused (d : Defects) (hd : d.partialRefusal = false) (pri : List Key) (system : Bool) (m : Model) (v : Version)
+    (e : Err) (h : (applyV d pri system m v).2 = some e) : (applyV d pri system m v).1 = m := by
+  unfold applyV at h ⊢
+  split
+  · rfl
+  · rename_i nv hp
+    rw [hp] at h
+    simp only at h
+    unfold updateWith at h ⊢
+    generalize (nv.nss.any fun n => if system = true then n.name != sysNs else n.name == sysNs) = cond at h ⊢
+    cases cond
+    · simp only [Bool.false_eq_true, if_false] at h ⊢
+      split
+      · simp [hd]
+      · rename_i hnone; rw [hnone] at h; cases h
+    · rfl
+
+/-- well-formedness is kept by every version, accepted or not -/
+theorem applyV_wf (d : Defects) (hd : d.hashOrderIds = false) (hp : d.partialRefusal = false) (pri : List Key)
+    (system : Bool) (m : Model) (v : Version) (hm : m.WF) : (applyV d pri system m v).1.WF := by
+  cases hr : (applyV d pri system m v).2 with
+  | some e => rw [applyV_refused d hp pri system m v e hr]; exact hm
+  | none =>
+    have : applyV d pri system m v = ((applyV d pri system m v).1, none) := by rw [← hr]
+    obtain ⟨nv, _, hnv, hacc, heq⟩ := applyV_ok this
+    rw [heq]
+    exact merged_model_wf pri d hd system _ (mode_of system) m nv hm hnv hacc
+
+/-- acceptance and the resulting model do not depend on the visit order -/
+theorem applyV_pri (d : Defects) (hd : d.hashOrderIds = false) (hp : d.partialRefusal = false) (pri pri' : List Key)
+    (system : Bool) (m : Model) (v : Version) :
+    (applyV d pri system m v).1 = (applyV d pri' system m v).1 ∧
+    ((applyV d pri system m v).2 = none ↔ (applyV d pri' system m v).2 = none) := by
+  have key : ∀ p p', (applyV d p system m v).2 = none →
+      (applyV d p' system m v).2 = none ∧ (applyV d p system m v).1 = (applyV d p' system m v).1 := by
+    intro p p' h
+    have : applyV d p system m v = ((applyV d p system m v).1, none) := by rw [← h]
+    obtain ⟨nv, hpv, _, hacc, heq⟩ := applyV_ok this
+    rw [heq, applyV_of_accepted hpv hacc]
+    exact ⟨rfl, Model.merged_pri d hd p p' system m nv hacc⟩
+  cases h1 : (applyV d pri system m v).2 with
+  | none =>
+    obtain ⟨h2, h3⟩ := key pri pri' h1
+    exact ⟨h3, by simp [h2]⟩
+  | some e =>
+    cases h2 : (applyV d pri' system m v).2 with
+    | none =>
+      obtain ⟨h3, _⟩ := key pri' pri h2
+      rw [h3] at h1; cases h1
+    | some e' =>
+      rw [applyV_refused d hp pri system m v e h1, applyV_refused d hp pri' system m v e' h2]
+      simp
+
+/-- re-applying an accepted version (a restart on the same model) is accepted and changes nothing -/
+theorem applyV_idem (d : Defects) (hd : d.hashOrderIds = false) (pri pri' : List Key) (system : Bool) (m m' : Model) (v : Version)
+    (hm : m.WF) (h : applyV d pri system m v = (m', none)) : applyV d pri' system m' v = (m', none) := by
+  obtain ⟨nv, hpv, hnv, hacc, heq⟩ := applyV_ok h
+  subst heq
+  unfold applyV
+  rw [hpv]
+  exact updateWith_idem pri pri' d hd system _ m nv hm hnv hacc
+
+
+
+/-! ### reading rows through the short ids -/
+
+theorem Model.Ext.findEntity {m m' : Model} (h : Model.Ext m m') {n e : String} {x : Entity}
+    (hx : m.findEntity n e = some x) : ∃ x', m'.findEntity n e = some x' ∧ Entity.Ext x x' := by
+  unfold Model.findEntity at hx ⊢
+  cases hn : m.findNs n with
+  | none => rw [hn] at hx; cases hx
+  | some y =>
+    rw [hn] at hx
+    obtain ⟨y', hy', hext⟩ := h n y hn
+    rw [hy']
+    simp only [Option.bind_some] at hx ⊢
+    exact hext.2.2 e x hx
+
+theorem Model.Ext.findField {m m' : Model} (h : Model.Ext m m') {n e f : String} {fd : Field}
+    (hf : m.findField n e f = some fd) : ∃ fd', m'.findField n e f = some fd' ∧ fd'.short = fd.short ∧ fd'.ty = fd.ty := by
+  unfold Model.findField at hf ⊢
+  cases he : m.findEntity n e with
+  | none => rw [he] at hf; cases hf
+  | some x =>
+    rw [he] at hf
+    obtain ⟨x', hx', hext⟩ := h.findEntity he
+    rw [hx']
+    simp only [Option.bind_some] at hf ⊢
+    exact hext.2.2 f fd hf
+
+theorem Model.Ext.nsId {m m' : Model} (h : Model.Ext m m') {n : String} {i : Nat} (hi : m.nsId n = some i) :
+    m'.nsId n = some i := by
+  unfold Model.nsId at hi ⊢
+  cases hn : m.findNs n with
+  | none => rw [hn] at hi; cases hi
+  | some y =>
+    rw [hn] at hi
+    obtain ⟨y', hy', hext⟩ := h n y hn
+    rw [hy']; simp only [Option.map_some, Option.some.injEq] at hi ⊢; rw [hext.2.1]; exact hi
+
+theorem Model.Ext.entK {m m' : Model} (h : Model.Ext m m') {n e : String} {k : Nat} (hk : m.entK n e = some k) :
+    m'.entK n e = some k := by
+  unfold Model.entK at hk ⊢
+  cases he : m.findEntity n e with
+  | none => rw [he] at hk; cases hk
+  | some x =>
+    rw [he] at hk
+    obtain ⟨x', hx', hext⟩ := h.findEntity he
+    rw [hx']; simp only [Option.map_some, Option.some.injEq] at hk ⊢; rw [hext.2.1]; exact hk
+
+theorem Model.Ext.fieldShort {m m' : Model} (h : Model.Ext m m') {n e f : String} {s : Nat}
+    (hs : m.fieldShort n e f = some s) : m'.fieldShort n e f = some s := by
+  unfold Model.fieldShort at hs ⊢
+  cases hf : m.findField n e f with
+  | none => rw [hf] at hs; cases hs
+  | some fd =>
+    rw [hf] at hs
+    obtain ⟨fd', hfd', hsh, _⟩ := h.findField hf
+    rw [hfd']; simp only [Option.map_some, Option.some.injEq] at hs ⊢; rw [hsh]; exact hs
+
+/-- a value stored under a field's short id is read back, unchanged, through any later model -/
+theorem read_preserved {m m' : Model} (h : Model.Ext m m') {n e f : String} {fd : Field}
+    (hf : m.findField n e f = some fd) (row : Row) (val : String) (hv : row.lookup fd.short = some val) :
+    read m n e f row = some (some val) ∧ read m' n e f row = some (some val) := by
+  obtain ⟨fd', hfd', hsh, _⟩ := h.findField hf
+  have hr : ∀ (mm : Model), read mm n e f row = (mm.findField n e f).map (readField · row) := by
+    intro mm; rfl
+  rw [hr, hr, hf, hfd']
+  simp only [Option.map_some, readField, hsh, hv]
+  exact ⟨trivial, trivial⟩
+
+theorem lookup_none_of_keys {row : Row} {s : Nat} (h : ∀ p ∈ row, p.1 ≠ s) : row.lookup s = none := by
+  induction row with
+  | nil => rfl
+  | cons p ps ih =>
+    have hp := h p (by simp)
+    simp only [List.lookup]
+    have : (s == p.1) = false := by simpa using fun heq => hp heq.symm
+    rw [this]
+    exact ih (fun q hq => h q (List.mem_cons_of_mem _ hq))
+
+theorem Model.WF.findEntity_wf {m : Model} (hm : m.WF) {n e : String} {x : Entity} (hx : m.findEntity n e = some x) : x.WF := by
+  unfold Model.findEntity at hx
+  cases hn : m.findNs n with
+  | none => rw [hn] at hx; cases hx
+  | some y =>
+    rw [hn] at hx
+    simp only [Option.bind_some] at hx
+    have hy : y ∈ m.nss := List.mem_of_find?_eq_some hn
+    exact (hm.2.2.2 y hy).2.2 x (List.mem_of_find?_eq_some hx)
+
+/-- a field that did not exist when the row was written reads its default, or null -/
+theorem read_new_field {m m' : Model} (hm : m.WF) (hm' : m'.WF) (h : Model.Ext m m') {n e f : String} {ent : Entity} {fd' : Field}
+    (he : m.findEntity n e = some ent) (hnew : ent.findField f = none) (hf' : m'.findField n e f = some fd')
+    (row : Row) (hrow : ∀ p ∈ row, ∃ g ∈ ent.fields, g.short = p.1) :
+    read m' n e f row = some (fd'.dflt.map (·.tok)) := by
+  have hr : read m' n e f row = (m'.findField n e f).map (readField · row) := rfl
+  rw [hr, hf']
+  simp only [Option.map_some, Option.some.injEq]
+  obtain ⟨ent', hent', hext⟩ := h.findEntity he
+  have hwf' := hm'.findEntity_wf hent'
+  have hwf := hm.findEntity_wf he
+  have hfd'mem : fd' ∈ ent'.fields ∧ fd'.name = f := by
+    unfold Model.findField at hf'
+    rw [hent'] at hf'
+    simp only [Option.bind_some, Entity.findField] at hf'
+    exact ⟨List.mem_of_find?_eq_some hf', by simpa using List.find?_some hf'⟩
+  have hnone : row.lookup fd'.short = none := by
+    apply lookup_none_of_keys
+    intro p hp heq
+    obtain ⟨g, hg, hgs⟩ := hrow p hp
+    have hfind : ent.findField g.name = some g := find?_self_of_nodup (fun (x : Field) => x.name) ent.fields hwf.1 g hg
+    obtain ⟨g', hg', hsh, _⟩ := hext.2.2 g.name g hfind
+    have hg'mem : g' ∈ ent'.fields := List.mem_of_find?_eq_some hg'
+    have hg'name : g'.name = g.name := by simpa using List.find?_some hg'
+    have : g' = fd' := PosFrom_eq_of_pos_eq (fun (x : Field) => x.short) _ _ hwf'.2 g' fd' hg'mem hfd'mem.1
+      (by rw [hsh, hgs, heq])
+    subst this
+    have hgf : g.name = f := hg'name.symm.trans hfd'mem.2
+    unfold Entity.findField at hnew
+    have := List.find?_eq_none.mp hnew g hg
+    simp [hgf] at this
+  simp [readField, hnone]
+
+
+
+/-! ### histories -/
+
+theorem applyV_ext (d : Defects) (pri : List Key) (system : Bool) (m : Model) (v : Version) :
+    Model.Ext m (applyV d pri system m v).1 := by
+  unfold applyV; split
+  · exact Model.Ext.refl m
+  · exact updateWith_ext _ _ _ _ _
+
+theorem runSteps_ext (d : Defects) (m : Model) (steps : List Step) : Model.Ext m (runSteps d m steps) := by
+  induction steps generalizing m with
+  | nil => exact Model.Ext.refl m
+  | cons s rest ih =>
+    obtain ⟨sys, pri, v⟩ := s
+    simp only [runSteps]
+    exact (applyV_ext d pri sys m v).trans (ih _)
+
+theorem runSteps_wf (d : Defects) (hd : d.hashOrderIds = false) (hp : d.partialRefusal = false) (m : Model)
+    (steps : List Step) (hm : m.WF) : (runSteps d m steps).WF := by
+  induction steps generalizing m with
+  | nil => exact hm
+  | cons s rest ih =>
+    obtain ⟨sys, pri, v⟩ := s
+    simp only [runSteps]
+    exact ih _ (applyV_wf d hd hp pri sys m v hm)
+
+theorem runSteps_accepted (d : Defects) (hp : d.partialRefusal = false) (m : Model) (steps : List Step) :
+    runSteps d m steps = runSteps d m (acceptedSteps d m steps) := by
+  induction steps generalizing m with
+  | nil => rfl
+  | cons s rest ih =>
+    obtain ⟨sys, pri, v⟩ := s
+    simp only [runSteps, acceptedSteps]
+    cases hr : (applyV d pri sys m v).2 with
+    | none => simp only [runSteps]; exact ih _
+    | some e => simp only; rw [applyV_refused d hp pri sys m v e hr]; exact ih m
+
+/-- two histories with the same versions in the same order, whatever the visit orders -/
+def sameVersions (a b : List Step) : Prop := a.map (fun s => (s.1, s.2.2)) = b.map (fun s => (s.1, s.2.2))
+
+theorem runSteps_pri (d : Defects) (hd : d.hashOrderIds = false) (hp : d.partialRefusal = false) (m : Model)
+    (a b : List Step) (h : sameVersions a b) : runSteps d m a = runSteps d m b := by
+  induction a generalizing m b with
+  | nil => cases b with
+    | nil => rfl
+    | cons _ _ => simp [sameVersions] at h
+  | cons s rest ih =>
+    cases b with
+    | nil => simp [sameVersions] at h
+    | cons t rest' =>
+      obtain ⟨sys, pri, v⟩ := s
+      obtain ⟨sys', pri', v'⟩ := t
+      simp only [sameVersions, List.map_cons, List.cons.injEq, Prod.mk.injEq] at h
+      obtain ⟨⟨rfl, rfl⟩, h2⟩ := h
+      simp only [runSteps]
+      rw [(applyV_pri d hd hp pri pri' sys m v).1]
+      exact ih _ rest' h2
+
+/-! ### unpacking `SameUserIds` and `WF` -/
+
+theorem Model.SameUserIds.nsId {a b : Model} (h : a.SameUserIds b) {n : String} (hn : n ≠ sysNs) : a.nsId n = b.nsId n := by
+  have := h n hn
+  unfold Model.nsId
+  cases ha : a.findNs n <;> cases hb : b.findNs n <;> rw [ha, hb] at this <;> simp_all [OptRel]
+  exact this.1
+
+theorem Model.SameUserIds.findEntity {a b : Model} (h : a.SameUserIds b) {n : String} (hn : n ≠ sysNs) (e : String) :
+    OptRel Entity.SameIds (a.findEntity n e) (b.findEntity n e) := by
+  have := h n hn
+  unfold Model.findEntity
+  cases ha : a.findNs n <;> cases hb : b.findNs n <;> rw [ha, hb] at this <;> simp_all [OptRel]
+  exact this.2 e
+
+theorem Model.SameUserIds.entK {a b : Model} (h : a.SameUserIds b) {n : String} (hn : n ≠ sysNs) (e : String) :
+    a.entK n e = b.entK n e := by
+  have := h.findEntity hn e
+  unfold Model.entK
+  cases ha : a.findEntity n e <;> cases hb : b.findEntity n e <;> rw [ha, hb] at this <;> simp_all [OptRel]
+  exact this.1
+
+theorem Model.SameUserIds.fieldShort {a b : Model} (h : a.SameUserIds b) {n : String} (hn : n ≠ sysNs) (e f : String) :
+    a.fieldShort n e f = b.fieldShort n e f := by
+  have := h.findEntity hn e
+  unfold Model.fieldShort Model.findField
+  cases ha : a.findEntity n e <;> cases hb : b.findEntity n e <;> rw [ha, hb] at this <;> simp_all [OptRel]
+  exact this.2 f
+
+/-- distinctness, spelled out: what `WF` gives -/
+theorem Model.WF.distinct {m : Model} (hm : m.WF) :
+    (m.nss.map (·.id)).Nodup ∧
+    (∀ n ∈ m.nss, (n.ents.map (·.k)).Nodup ∧ ∀ e ∈ n.ents, (e.fields.map (·.short)).Nodup) ∧
+    (∀ n₁ ∈ m.nss, ∀ n₂ ∈ m.nss, ∀ e₁ ∈ n₁.ents, ∀ e₂ ∈ n₂.ents,
+        entShort n₁ e₁ = entShort n₂ e₂ → n₁ = n₂ ∧ e₁ = e₂) := by
+  refine ⟨hm.2.1, fun n hn => ⟨PosFrom_nodup _ _ _ (hm.2.2.2 n hn).2.1,
+    fun e he => PosFrom_nodup _ _ _ ((hm.2.2.2 n hn).2.2 e he).2⟩, ?_⟩
+  intro n₁ h₁ n₂ h₂ e₁ he₁ e₂ he₂ heq
+  unfold entShort at heq
+  simp only [Prod.mk.injEq] at heq
+  have hns : n₁ = n₂ := by
+    by_cases c1 : n₁.name = "" <;> by_cases c2 : n₂.name = ""
+    · exact eq_of_name_eq (fun (n : Ns) => n.name) m.nss hm.1 n₁ n₂ h₁ h₂ (c1.trans c2.symm)
+    · simp [c1, c2] at heq
+    · simp [c1, c2] at heq
+    · simp only [beq_iff_eq, c1, c2, if_false, Option.some.injEq] at heq
+      exact eq_of_name_eq (fun (n : Ns) => n.id) m.nss hm.2.1 n₁ n₂ h₁ h₂ heq.1
+  subst hns
+  exact ⟨rfl, PosFrom_eq_of_pos_eq _ _ _ (hm.2.2.2 n₁ h₁).2.1 e₁ e₂ he₁ he₂ heq.2⟩
+
+theorem wf_empty : Model.empty.WF := ⟨by simp [Model.empty], by simp [Model.empty], by simp [Model.empty], by simp [Model.empty]⟩
+
+
+
+/-! ### the instance: restart on the same text -/
+
+theorem guard_true_names {nv : Model} (hg : nsGuard true nv = false) : ∀ nn ∈ nv.nss, nn.name = sysNs := by
+  intro nn hnn
+  unfold nsGuard at hg
+  have := (List.any_eq_false.mp hg) nn hnn
+  simpa using this
+
+theorem guard_false_names {nv : Model} (hg : nsGuard false nv = false) : ∀ nn ∈ nv.nss, nn.name ≠ sysNs := by
+  intro nn hnn
+  unfold nsGuard at hg
+  have := (List.any_eq_false.mp hg) nn hnn
+  simpa using this
+
+theorem loadAndUpdate_restart (d : Defects) (hd : d.hashOrderIds = false) (pri pri' : List Key) (sysV : Version)
+    (stored : Option Model) (v : Version) (m' : Model) (hs : (stored.getD Model.empty).WF)
+    (h : loadAndUpdate d pri sysV stored v = (m', none)) :
+    loadAndUpdate d pri' sysV (some m') v = (m', none) := by
+  unfold loadAndUpdate at h
+  simp only [updateSystem_eq_applyV] at h
+  split at h
+  · cases h
+  · rename_i m1 h1
+    rw [update_eq_applyV] at h
+    obtain ⟨nvS, hpS, hnvS, haccS, heqS⟩ := applyV_ok h1
+    obtain ⟨nvU, hpU, hnvU, haccU, heqU⟩ := applyV_ok h
+    have hm1 : m1.WF := by
+      rw [heqS]; exact merged_model_wf pri d hd true _ (mode_of true) _ nvS hs hnvS haccS
+    obtain ⟨hset, hall⟩ := merged_settled pri d hd true _ _ nvS hs hnvS haccS
+    rw [← heqS] at hset hall
+    have hsysNames := guard_true_names haccS.1
+    have hsys : applyV d pri' true m' sysV = (m', none) := by
+      unfold applyV
+      rw [hpS]
+      apply updateWith_settled d pri' true m' nvS haccS.1
+      · intro x hx
+        rw [heqU] at hx
+        simp only [Model.merged] at hx
+        rcases List.mem_append.mp hx with hx | hx
+        · simp only [List.mem_map] at hx
+          obtain ⟨y, hy, rfl⟩ := hx
+          have hxname : (nsStep d pri false nvU y).1.name = y.name := (nsStep_ext d pri false nvU y).1
+          rcases hset y hy with ⟨hnone, _⟩ | ⟨nn, hsome, hsettled⟩
+          · exact Or.inl ⟨by rw [hxname]; exact hnone, Or.inl rfl⟩
+          · -- y is the system namespace: the user update leaves it alone
+            have hnn := List.mem_of_find?_eq_some hsome
+            have hyname : y.name = sysNs := by
+              have : nn.name = y.name := by simpa using List.find?_some hsome
+              rw [← this]; exact hsysNames nn hnn
+            have hnoneU : nvU.nss.find? (·.name == y.name) = none := by
+              rw [List.find?_eq_none]
+              intro z hz
+              have := guard_false_names haccU.1 z hz
+              simp only [beq_iff_eq]
+              rw [hyname]; exact this
+            rw [nsStep_ok_none d pri false nvU y hnoneU (Or.inr hyname)]
+            exact Or.inr ⟨nn, hsome, hsettled⟩
+        · have hmem : x ∈ nvU.nss := (List.mem_filter.mp hx).1
+          have hxn := guard_false_names haccU.1 x hmem
+          refine Or.inl ⟨?_, Or.inl rfl⟩
+          rw [List.find?_eq_none]
+          intro z hz
+          simp only [beq_iff_eq]
+          rw [hsysNames z hz]
+          exact fun h => hxn h.symm
+      · intro nn hnn
+        have := hall nn hnn
+        rw [heqU]
+        simp only [Model.merged, List.map_append, List.mem_append]
+        refine Or.inl ?_
+        obtain ⟨y, hy, hyn⟩ := List.mem_map.mp this
+        exact List.mem_map.mpr ⟨(nsStep d pri false nvU y).1, List.mem_map.mpr ⟨y, hy, rfl⟩,
+          by rw [(nsStep_ext d pri false nvU y).1]; exact hyn⟩
+    unfold loadAndUpdate
+    simp only [Option.getD_some, updateSystem_eq_applyV, hsys, update_eq_applyV]
+    exact applyV_idem d hd pri pri' false m1 m' v hm1 h
+
+
+/-! ### the code before the fixes, under the guard "at most one new field per existing entity" -/
+
+theorem Entity.merged_single (d : Defects) (pri : List Key) (nsn : String) (e ne : Entity) (h : (e.fresh ne).length ≤ 1) :
+    e.merged d pri nsn ne = e.merged Defects.none pri nsn ne := by
+  unfold Entity.merged
+  cases d.hashOrderIds
+  · simp [Defects.none]
+  · simp [Defects.none, prio_short _ _ _ h]
+
+theorem Model.merged_single (d : Defects) (pri : List Key) (system : Bool) (m nv : Model)
+    (ha : updAccepted system m nv) (hg : atMostOneFresh m nv = true) :
+    Model.merged d pri system m nv = Model.merged Defects.none pri system m nv := by
+  unfold Model.merged
+  congr 2
+  apply List.map_congr_left
+  intro n hn
+  unfold atMostOneFresh at hg
+  have hgn := (List.all_eq_true.mp hg) n hn
+  rcases nsStep_fst_of_accepted pri d system nv n (ha.2 n hn) with ⟨hnone, heq⟩ | ⟨nn, hsome, hnid, hents, heq⟩
+  · rcases nsStep_fst_of_accepted pri Defects.none system nv n (ha.2 n hn) with ⟨_, heq'⟩ | ⟨nn', hsome', _, _, _⟩
+    · rw [heq, heq']
+    · rw [hnone] at hsome'; cases hsome'
+  · rcases nsStep_fst_of_accepted pri Defects.none system nv n (ha.2 n hn) with ⟨hnone', _⟩ | ⟨nn', hsome', _, _, heq'⟩
+    · rw [hnone'] at hsome; cases hsome
+    · rw [hsome] at hsome'; cases hsome'
+      rw [heq, heq']
+      rw [hsome] at hgn
+      simp only at hgn
+      unfold Ns.merged
+      congr 2
+      apply List.map_congr_left
+      intro e he
+      obtain ⟨ne, hf, hk, hacc⟩ := hents e he
+      rw [entStep_ok d pri nn e ne hf hk hacc, entStep_ok Defects.none pri nn e ne hf hk hacc]
+      have hge := (List.all_eq_true.mp hgn) e he
+      rw [hf] at hge
+      exact Entity.merged_single d pri nn.name e ne (by simpa using hge)
+
+/-- an accepted version that brings at most one new field per existing entity gives the same model with
+    and without the two defects -/
+theorem applyV_single (d : Defects) (pri : List Key) (system : Bool) (m m' : Model) (v : Version)
+    (hg : oneFreshGuard system m v = true) (h : applyV d pri system m v = (m', none)) :
+    applyV Defects.none pri system m v = (m', none) := by
+  obtain ⟨nv, hp, _, hacc, heq⟩ := applyV_ok h
+  unfold oneFreshGuard at hg
+  rw [hp] at hg
+  rw [applyV_of_accepted hp hacc, heq, Model.merged_single d pri system m nv hacc hg]
 
 end Discret.DM
